@@ -17,6 +17,10 @@ pub const SUFFIXES: &[&str] = &["", ">", "x>", "\"'>", "-->", "--!>", "]]>", "</
 const TEXT_BITS: &[&str] = &[
     "a", "b", "x", "y", " ", "  ", "\n", "\r", "\r\n", "\t", "\x0C", "é", "\u{a0}", "\u{10ffff}", "日本", "\0", "\u{feff}",
     "\u{fffd}", "text", "0", "9", "-", "--", "=", ";", "#", "]", "]]", "`",
+    // C0 controls are not white space; alone, and inside word-sized runs of real white space
+    "\u{1}", "\u{b}", "\u{1f}", "       \u{1}", "    \u{b}    ", " \u{1f}       ", "\u{8}\u{e}", "\u{7f}", "\u{85}", "\u{2028}",
+    // markers in the wrong case
+    "<![cdata[x]]>", "<![Cdata[y]]>", "<![CDATA[\0]]>", "<![CDATA[\0\0]]>",
 ];
 
 const TAG_NAMES: &[&str] = &[
@@ -382,7 +386,11 @@ pub fn all_html_names() -> Vec<&'static str> {
     v
 }
 
-const HTML_TEXT: &[&str] = &["x", "y", " ", "\n", " a ", "text", "\t", "\0", "é", "&amp;", "&lt", "&nbsp;", "\x0C", "\r\n", "a\0b", " \n ", "1"];
+const HTML_TEXT: &[&str] = &[
+    "x", "y", " ", "\n", " a ", "text", "\t", "\0", "é", "&amp;", "&lt", "&nbsp;", "\x0C", "\r\n", "a\0b", " \n ", "1",
+    // C0 controls are not white space (table text, frameset-ok), also inside word-sized runs of white space
+    "\u{1}", "       \u{1}", "    \u{b}    ", " \u{1f}       ", "        \u{8}", "\u{e}       \n",
+];
 
 pub const QUIRKS_DOCTYPES: &[&str] = &[
     "<!DOCTYPE html>",
@@ -470,7 +478,7 @@ impl<'a> HtmlGen<'a> {
         let n = [0, 0, 0, 1, 1, 2, 3][self.rng.below(7)];
         for _ in 0..n {
             let special: &[(&str, &[&str])] = &[
-                ("type", &["hidden", "HIDDEN", "text", " hidden", ""]),
+                ("type", &["hidden", "HIDDEN", "text", " hidden", "", "h\u{131}dden", "h\u{130}dden", "H\u{130}DDEN", "hidden\u{0}", "hıdden"]),
                 ("encoding", &["text/html", "TEXT/HTML", "application/xhtml+xml", "text/xml", ""]),
                 ("color", &["red"]),
                 ("face", &["x"]),
@@ -597,13 +605,24 @@ pub fn scenario(rng: &mut Rng) -> String {
     let blk = *rng.pick(&["div", "p", "li", "blockquote", "address", "h1", "td", "button", "marquee", "object", "applet", "center", "dd"]);
     let k = rng.range(1, 10);
     let rep = |s: &str, n: usize| s.repeat(n);
-    match rng.below(49) {
+    match rng.below(56) {
+        54 => format!("<{blk}><form id=f></{blk}><template><script>1</script>x<p>y</template><script>2</script><input name=a><textarea>t</textarea><button>b</button><select></select>"),
+        55 => format!("<div><form></div><table><template><tr><script>1</script><td>x</template><tr><td><input><script>2</script></td></tr></table><input><{fmt}><fieldset>"),
+        49 => {
+            // adoption agency with non-formatting, non-special elements between the formatting element and the furthest block
+            let inl = *rng.pick(&["span", "sub", "kbd", "abbr", "custom-x", "cite"]);
+            format!("<{fmt}>{}<{blk}>x</{fmt}>y", rep(&format!("<{inl}>"), k))
+        },
+        50 => format!("<frameset></frameset></html>{}<html lang=en>{}", rng.pick_s(&["", " ", "<!-- c -->", "\n"]), rng.pick_s(&["x", "<p>y", " z", "<frame>", "<noframes>n</noframes>w"])),
+        51 => format!("<svg><desc><![CDATA[\0]]></desc><title><![CDATA[\0\0]]>t</title><foreignObject><![CDATA[\0]]><p></foreignObject></svg><math><mi><![CDATA[\0]]></mi><annotation-xml encoding=text/html><![CDATA[\0]]></annotation-xml></math>"),
+        52 => format!("<table><input type=h\u{131}dden><input type=HIDDEN><input type=\"hidden \"></table><p><input type=h\u{130}dden><frameset>"),
+        53 => format!("<svg>{}</svg><frameset><frame></frameset>", rng.pick_s(&["\0", " \0 ", "\u{1}", " ", "x", "<g>\0</g>", "<desc>\0</desc>"])),
         45..=48 => {
             // interplay soup: table structure x template x select x formatting, start and end tags in any order
             const T: &[&str] = &[
                 "<table>", "<tbody>", "<thead>", "<tr>", "<td>", "<th>", "<caption>", "<colgroup>", "<col>", "<template>", "</table>", "</tbody>", "</tr>", "</td>", "</th>", "</caption>", "</colgroup>", "</template>",
                 "<table>", "<tr>", "<td>", "<template>", "</template>", "</tr>", "</td>", "x", " ", "<div>", "</div>", "<select>", "</select>", "<option>", "<b>", "</b>", "<a>", "</a>", "<p>", "<form>", "</form>", "<input>", "<svg>", "</svg>",
-                "<frameset>", "</frameset>", "<head>", "</head>", "<body>", "</body>", "</html>", "<script></script>", "<style>", "</style>", "<br>", "</br>", "</p>", "<li>", "<dd>", "<button>", "<object>", "</object>", "<marquee>", "<nobr>",
+                "<frameset>", "</frameset>", "<head>", "</head>", "<body>", "</body>", "</html>", "<html>", "<html lang=en>", "<frame>", "<noframes>", "<script></script>", "<style>", "</style>", "<br>", "</br>", "</p>", "<li>", "<dd>", "<button>", "<object>", "</object>", "<marquee>", "<nobr>",
             ];
             let n = rng.range(3, 16);
             let mut s = String::new();
@@ -852,7 +871,8 @@ pub fn xml_ns_doc(rng: &mut Rng) -> String {
             return;
         }
         *budget -= 1;
-        let prefixes = ["", "", "p", "q", "r", "xml", "xmlns"];
+        // (prefixes that merely begin with "xml" are ordinary prefixes)
+        let prefixes = ["", "", "p", "q", "r", "xml", "xmlns", "p", "q", "xmlrpc", "xmlx", "XML"];
         let p = *rng.pick(&prefixes);
         let local = *rng.pick(&["a", "b", "c", "script", "d"]);
         let name = if p.is_empty() { local.to_string() } else { format!("{p}:{local}") };
@@ -864,16 +884,17 @@ pub fn xml_ns_doc(rng: &mut Rng) -> String {
             if rng.chance(1, 3) {
                 attrs.push(format!("xmlns=\"{}\"", rng.pick(&["u", "v", "", "w"])));
             } else {
-                let dp = *rng.pick(&["p", "q", "r", "xml", "xmlns"]);
-                attrs.push(format!("xmlns:{dp}=\"{}\"", rng.pick(&["u", "v", "", "w", "http://www.w3.org/XML/1998/namespace"])));
+                let dp = *rng.pick(&["p", "q", "r", "xml", "xmlns", "p", "q", "xmlrpc", "xmlx", "XML"]);
+                attrs.push(format!("xmlns:{dp}=\"{}\"", rng.pick(&["u", "v", "", "w", "http://www.w3.org/XML/1998/namespace", "u1", "u2", "a", "b", "u\u{85}", "urn:x y"])));
             }
         }
         let na = [0, 0, 1, 2, 3][rng.below(5)];
         for _ in 0..na {
-            let ap = *rng.pick(&["", "", "p", "q", "r", "xml"]);
-            let al = *rng.pick(&["x", "y", "z", "xmlns", "lang"]);
+            let ap = *rng.pick(&["", "", "p", "q", "r", "xml", "xmlrpc", "xmlx"]);
+            // (upper-case and digit variants: names that differ from each other by small byte distances)
+            let al = *rng.pick(&["x", "y", "z", "xmlns", "lang", "X", "Y", "Z", "xo", "xP", "y1", "Z0"]);
             let an = if ap.is_empty() { al.to_string() } else { format!("{ap}:{al}") };
-            let v = *rng.pick(&["1", "2", "a&amp;b", "&lt;", "'", "&quot;", "é", "a b", "&#10;", "&#13;", "&#9;", ""]);
+            let v = *rng.pick(&["1", "2", "a&amp;b", "&lt;", "'", "&quot;", "é", "a b", "&#10;", "&#13;", "&#9;", "", "\u{85}", "a\u{85}b", "\u{2028}", "\u{80}", "\u{9f}", "&#x85;", "&#133;", "\u{a0}", "\t", "\n"]);
             attrs.push(format!("{an}=\"{v}\""));
         }
         rng.shuffle(&mut attrs);
@@ -890,7 +911,7 @@ pub fn xml_ns_doc(rng: &mut Rng) -> String {
             let kids = [0, 1, 1, 2, 3][rng.below(5)];
             for _ in 0..kids {
                 match rng.below(6) {
-                    0 => out.push_str(rng.pick_s(&["t", "a&amp;b", "&lt;x&gt;", "]]&gt;", " ", "é", "&#13;", "&#10;", "x\ny", "--", "&#9;"])),
+                    0 => out.push_str(rng.pick_s(&["t", "a&amp;b", "&lt;x&gt;", "]]&gt;", " ", "é", "&#13;", "&#10;", "x\ny", "--", "&#9;", "\u{85}", "\u{2028}", "\u{80}x", "&#x85;"])),
                     1 => out.push_str(rng.pick_s(&["<!-- c -->", "<?pi d?>", "<![CDATA[<&>]]>"])),
                     _ => el(rng, out, depth + 1, budget),
                 }
